@@ -1,0 +1,44 @@
+//go:build verif
+
+// Contracts for the deductive verifier in /verif (govc). Comments only.
+
+package mitm
+
+// ---- the certificate factory (C07): a certificate valid for the requested name ----
+// Cryptography is trusted (specs/x509.spec): the proof is about which name,
+// parent, signer and validity window the certificate is created with, and that a
+// cached certificate is handed out only after it verified for the name.
+
+// (the certificate cache is an LRU with expiry from a library: whatever it
+// returns, it is a certificate with a parsed leaf)
+//@ func (*go-freelru.ShardedLRU).Get as (lru *freelru.ShardedLRU, key string) (result0 *tls.Certificate, result1 bool)
+//@ trusted
+//@ modifies *
+//@ preserves Config.* tls.Certificate.* x509.Certificate.DNSNames x509.Certificate.IPAddresses x509.Certificate.NotBefore x509.Certificate.NotAfter
+//@ ensures result1 ==> result0 != nil && result0.Leaf != nil
+//@ func (*go-freelru.ShardedLRU).Add as (lru *freelru.ShardedLRU, key string, value *tls.Certificate) (evicted bool)
+//@ trusted
+//@ modifies *
+//@ preserves Config.* tls.Certificate.* x509.Certificate.DNSNames x509.Certificate.IPAddresses x509.Certificate.NotBefore x509.Certificate.NotAfter
+
+//@ pred hostOnly(h string) = ite(splitOK(h), splitHost(h), h)
+
+// cert: for every name (host, host:port, IPv4/IPv6 literal) the certificate
+// returned verifies for the name without the port against the configured roots:
+// either a cached one that just passed verification for that name, or a new one
+// created for exactly that name (IP SAN for literals, DNS SAN otherwise), with
+// the CA as parent, signed by the CA key, valid around now.
+//@ func (*Config).cert
+//@ property C07
+//@ requires c != nil && c.ca != nil && c.priv != nil && c.validity >= 0 && caPair(c.ca, c.capriv, c.roots) && hostOnly(hostname) != ""
+//@ modifies *
+//@ preserves Config.*
+//@ ensures result1 == nil ==> result0 != nil && result0.Leaf != nil && chainOK(result0.Leaf, c.roots, old(hostOnly(hostname)))
+
+// TLSForHost: the name is the SNI name, or the CONNECT host when no SNI is sent.
+//@ func (*Config).TLSForHost$1
+//@ property C07
+//@ requires c != nil && clientHello != nil && c.ca != nil && c.priv != nil && c.validity >= 0 && caPair(c.ca, c.capriv, c.roots) && hostOnly(ite(clientHello.ServerName == "", hostname, clientHello.ServerName)) != ""
+//@ modifies *
+//@ preserves Config.*
+//@ ensures result1 == nil ==> result0 != nil && result0.Leaf != nil && chainOK(result0.Leaf, old(c.roots), old(hostOnly(ite(clientHello.ServerName == "", hostname, clientHello.ServerName))))
